@@ -155,7 +155,7 @@ func (r *run) runMemLimit() {
 				r.violate("C14", "no-panic", fmt.Sprintf("memory limit %d bytes, batch %d%s: consumer panicked: %s", L, i, after, pan))
 				return res
 			}
-			if mp.inuse > int64(L) || mp.max > int64(L) {
+			if mp.inuse < 0 || mp.max < 0 || uint64(mp.inuse) > L || uint64(mp.max) > L {
 				r.violate("C14", "inuse-bounded", fmt.Sprintf("memory limit %d bytes, after batch %d the consumer reports %d bytes of Arrow memory in use (peak %d)", L, i, mp.inuse, mp.max))
 				return res
 			}
